@@ -71,7 +71,8 @@ def render(tree, style, r=None):
             collect(c)
     collect(tree)
     if style == "fresh-prefixes" and r is not None:
-        names = r.sample(["a", "b", "zz", "ns0", "tns", "x1", "soap", "xs", "p", "q-r", "_u"], len(uris))
+        pool = ["a", "b", "zz", "ns0", "tns", "x1", "soap", "xs", "p", "q-r", "_u"]
+        names = r.sample(pool, len(uris)) if len(uris) <= len(pool) else r.sample(pool + [f"w{i}" for i in range(len(uris))], len(uris))
     else:
         names = [f"n{i}" for i in range(len(uris))]
     pfx = dict(zip(uris, names))
